@@ -381,6 +381,11 @@ func (g *gen) rawExpr(k kind, depth int, class string) string {
 		case 3:
 			return "(" + g.expr(kStr, depth-1, "grouped") + ")"
 		case 4:
+			if g.pct("inflect", 50) {
+				g.feat("inflection")
+				h := []string{"upcase", "downcase", "capitalize", "pluralize", "singularize", "camelize", "dasherize", "underscore", "ordinalize"}[g.intn("infl", 0, 8)]
+				return h + "(" + g.expr(kStr, depth-1, "go-helper-arg") + ")"
+			}
 			g.feat("method_call")
 			return "obj.Greet(" + g.expr(kStr, depth-1, "method-arg") + ")"
 		case 5:
@@ -404,6 +409,16 @@ func (g *gen) rawExpr(k kind, depth int, class string) string {
 			return fmt.Sprintf("pr(%d, %s)", id, g.expr(kStr, depth-1, "go-helper-arg"))
 		case 8:
 			g.feat("chained_call")
+			if s := g.newSiteIf(pkMethod, "chained-call-head", kStr); s != nil && g.pct("chainprobe", 60) {
+				// the head of the chain is a probe returning (value, error)
+				g.feat("chained_call_probe_head")
+				return fmt.Sprintf("(obj.PS(%d).Name)", s.ID)
+			} else if s != nil {
+				// site created but not used: drop it again
+				delete(g.p.Sites, s.ID)
+				g.pending = g.pending[:len(g.pending)-1]
+				g.siteLog = g.siteLog[:len(g.siteLog)-1]
+			}
 			return "(obj.Self().Name)"
 		default:
 			// a helper that renders, through HelperContext.Render, a template string containing a probe
@@ -641,7 +656,22 @@ func (g *gen) piece(depth int) {
 	case 5:
 		g.feat("builtin_misc")
 		g.frames = 0
-		switch g.intn("misc", 0, 6) {
+		switch g.intn("misc", 0, 10) {
+		case 7:
+			g.feat("inspect_debug")
+			g.tag("<%=", []string{"inspect", "debug"}[g.intn("insp", 0, 1)]+"("+g.hashLit(2, false)+")", "%>")
+		case 8:
+			g.feat("inspect_debug")
+			g.tag("<%=", []string{"inspect", "debug"}[g.intn("insp", 0, 1)]+"("+[]string{"mi", "m1", "xs", "ss", "one"}[g.intn("inspv", 0, 4)]+")", "%>")
+		case 9:
+			g.feat("inspect_debug")
+			g.tag("<%=", "inspect("+g.expr(kArr, 1, "go-helper-arg")+")", "%>")
+		case 10:
+			g.feat("group_by")
+			e := g.fresh("e")
+			g.tag("<%=", "for ("+e+") in groupBy("+fmt.Sprint(g.intn("gsz", 1, 3))+", "+g.maybeProbe("xs", kArr, "go-helper-arg", false)+") {", "%>")
+			g.tag("<%=", "len("+e+")", "%>")
+			g.tag("<%", "}", "%>")
 		case 4:
 			g.tag("<%=", "tm", "%>")
 		case 5:
@@ -1141,7 +1171,13 @@ func (g *gen) partialPiece(depth int) {
 // noisePiece: material that moves line numbers but contains no probes.
 func (g *gen) noisePiece() {
 	g.feat("noise")
-	switch g.intn("noise", 0, 11) {
+	switch g.intn("noise", 0, 14) {
+	case 12:
+		g.cur.write("pre \\<% esc %>\npost \\<%= esc2 %>\n\n")
+	case 13:
+		g.cur.write("a\\\\b \\ c\n\\<%# esc %>\n")
+	case 14:
+		g.cur.write("<%# c1 %>\n<%# c2\n%>\n<% # c3\n%>\n")
 	case 6:
 		g.cur.write("escaped \\<%= not a tag %> text\nnext\n")
 	case 7:
